@@ -47,6 +47,24 @@ def cases(shard, rnd):
                       b'\x80\x80\x00\x80\x00\x00\x00', bytearray(b'\x01' * 9),
                       memoryview(b'\x02' * 8)):
                 yield {'t': 'buf', 'buf': b}
+        if shard['axes']:
+            # live dictionary: constants of the tree under test as the type
+            # octet, the channel, the size, and as the bytes that follow
+            from ..gen import magic
+            mp = magic.pool()
+            for c in mp.ints_in(0, 2**32 - 1):
+                for t in (1, 2, 3, 8, rnd.choice(mp.octets)):
+                    yield {'t': 'buf', 'buf': struct.pack(
+                        '>BHI', t, rnd.choice(mp.ints_in(0, 65535)), c)
+                        + rnd.randbytes(rnd.choice([0, 1, 9]))}
+                if c <= 65535:
+                    yield {'t': 'buf', 'buf': struct.pack(
+                        '>BHI', rnd.choice([1, 2, 3, 8]), c,
+                        rnd.getrandbits(32)) + mp.rbytes(rnd)}
+            for m in mp.bytes:
+                yield {'t': 'buf', 'buf': m}
+                yield {'t': 'buf', 'buf': rnd.randbytes(7) + m}
+                yield {'t': 'buf', 'buf': (m + rnd.randbytes(7))[:len(m) + 3]}
         for _ in range(shard['rand']):
             h = bytearray(rnd.randbytes(7))
             k = rnd.random()
@@ -74,6 +92,18 @@ def cases(shard, rnd):
                 'ch': gf.rchannel(rnd)}
         for ch in gf.CHANNELS:
             yield {'t': 'heartbeat', 'ch': ch}
+        from ..gen import magic
+        mp = magic.pool()
+        for idx in shard['indexes']:
+            spec = refspec.METHODS[idx]
+            for _ in range(shard['per'] // 2):
+                yield {'t': 'method', 'index': idx,
+                       'vals': gf.assignment(rnd, spec, magic=0.7),
+                       'ch': gf.rchannel(rnd)}
+        for n in mp.lengths[shard.get('i', 0)::4]:
+            if n >= 1:
+                yield {'t': 'body', 'body': rnd.randbytes(n),
+                       'ch': rnd.choice(mp.ints_in(0, 65535))}
         # frames above the default frame-max (the encoder enforces no limit)
         for n in (131065, 131072, 131073, 200000, 1 << 20):
             yield {'t': 'body', 'body': bytes([n % 251]) * n,
